@@ -187,6 +187,11 @@ def run_shard(sh, ctx):
 				for rn, ro in list(ropts.items()) + [('rs', ['--rs', rA]), ('square', ['--square'])]:
 					o = env.out(); expect_error(ctx, f'dist -k/-p + --qs / ref {rn}', rel, ['dist', '-o', o, '--no-progress'] + kopts(A) + ['--qs', qB] + ro, o, w)
 				o = env.out(); expect_error(ctx, 'dist -k/-p + --qs / ref use-db', rel, ['-d', dbA, 'dist', '-o', o, '--no-progress'] + kopts(A) + ['--qs', qB, '--use-db'], o, w)
+				# 4b. explicit -k/-p agree with ONE pre-computed side but the other pre-computed side differs
+				o = env.out(); expect_error(ctx, 'dist -k/-p == --qs, --rs differs', rel, ['dist', '-o', o, '--no-progress'] + kopts(A) + ['--qs', qA, '--rs', rB], o, w)
+				o = env.out(); expect_error(ctx, 'dist -k/-p == --rs, --qs differs', rel, ['dist', '-o', o, '--no-progress'] + kopts(A) + ['--qs', qB, '--rs', rA], o, w)
+				o = env.out(); expect_error(ctx, 'dist -k/-p == --qs, --use-db differs', rel, ['-d', dbA, 'dist', '-o', o, '--no-progress'] + kopts(B) + ['--qs', qB, '--use-db'], o, w)
+				o = env.out(); expect_error(ctx, 'dist -k/-p == --use-db, --qs differs', rel, ['-d', dbA, 'dist', '-o', o, '--no-progress'] + kopts(A) + ['--qs', qB, '--use-db'], o, w)
 				# 5. dist -k/-p A --rs B with each query channel; -k/-p B with --use-db A
 				for qn, qo in qopts.items():
 					o = env.out(); expect_error(ctx, f'dist -k/-p + --rs / query {qn}', rel, ['dist', '-o', o, '--no-progress'] + kopts(A) + qo + ['--rs', rB], o, w)
@@ -254,7 +259,7 @@ def run_shard(sh, ctx):
 
 def finalize(merged, tier, seed, inconclusive):
 	c = merged['counters']
-	need = ['mismatch:query -s', 'mismatch:dist --qs --rs', 'mismatch:dist --qs --use-db', 'mismatch:dist -k/-p + --qs / ref files', 'mismatch:dist -k/-p + --rs / query listfile',
+	need = ['mismatch:query -s', 'mismatch:dist -k/-p == --qs, --rs differs', 'mismatch:dist -k/-p == --qs, --use-db differs', 'mismatch:dist --qs --rs', 'mismatch:dist --qs --use-db', 'mismatch:dist -k/-p + --qs / ref files', 'mismatch:dist -k/-p + --rs / query listfile',
 	        'mismatch:dist -k without -p', 'mismatch:signatures create --db-params + -k/-p', 'relation:k-differs', 'relation:prefix-differs', 'relation:both-differ',
 	        'control:dist --qs --rs', 'control:dist query files + --use-db (inferred)', 'control:query files', 'control:signatures create --db-params', 'control:tree -s']
 	for n in need:
